@@ -265,6 +265,61 @@ theorem callInv_step (P : Program) (F : Flags) (t : Nat) (c : Config) (tr : List
       rw [hsum]
       exact ⟨hle1, hle2⟩
 
+/-- number of activations of `t` that passed the call counter so far -/
+def passed (t : Nat) (c : Config) (tr : List Label) : Nat :=
+  cnt (pendingB t) c (actIds tr) + cnt (isTask t) c (acquirers tr)
+
+/-- a local step leaves `passed` alone -/
+theorem passed_local (F : Flags) (t : Nat) (c : Config) (tr : List Label) (l : Label) (x y : Act) (eff : Eff)
+    (hids : IdsInv c tr) (hne : ∀ k t, l.ev ≠ .enter k t) (hx : c.act? l.act = some x)
+    (hl : stepLocal F (obsOf F c l.act x) x l.ev = some (y, eff)) :
+    passed t ((applyEff c l.act eff).set l.act y) (tr ++ [l]) = passed t c tr := by
+  have hst := stepLocal_static F _ x l.ev y eff hl
+  obtain ⟨hent, hyne, _, _⟩ := stepLocal_entered F _ x l.ev y eff hl
+  have hT : ∀ L, cnt (isTask t) ((applyEff c l.act eff).set l.act y) L = cnt (isTask t) c L :=
+    fun L => cnt_local_same (isTask t) c l.act x y eff L hx (by simp [isTask, hst.task])
+  have hP := cnt_local (pendingB t) c tr l.act x y eff hids hx
+  have hpy : pendingB t y = false := by simp [pendingB, hyne]
+  rw [hpy] at hP
+  unfold passed
+  rw [actIds_snoc_other tr l hne, acquirers_append]
+  by_cases hev : l.ev = .acquire
+  · have hxp : pendingB t x = isTask t x := by simp [pendingB, isTask, hent.mpr hev]
+    have : acquirers [l] = [l.act] := by simp [acquirers, hev]
+    rw [this]
+    unfold cnt at hP ⊢
+    rw [List.countP_append]
+    have h2 := hT (acquirers tr)
+    unfold cnt at h2
+    rw [h2]
+    have h3 : actB (isTask t) ((applyEff c l.act eff).set l.act y) l.act = isTask t x := by
+      rw [actB_local]; simp [isTask, hst.task]
+    simp only [List.countP_cons, List.countP_nil, h3, Nat.zero_add]
+    rw [hxp] at hP
+    simp only [Bool.false_eq_true, if_false, Nat.add_zero] at hP
+    omega
+  · have hxp : pendingB t x = false := by
+      have : x.phase ≠ .entered := fun e => hev (hent.mp e)
+      simp [pendingB, this]
+    have : acquirers [l] = [] := by simp [acquirers, hev]
+    rw [this, List.append_nil, hT]
+    rw [hxp] at hP
+    simp only [Bool.false_eq_true, if_false, Nat.add_zero] at hP
+    omega
+
+/-- `enter` adds the fresh activation to `passed` iff it got past the counter -/
+theorem passed_enter (P : Program) (F : Flags) (t : Nat) (c c' : Config) (tr : List Label) (l : Label)
+    (k : Kind) (t' : Nat) (hids : IdsInv c tr) (hbound : ∀ b ∈ acquirers tr, (c.act? b).isSome = true)
+    (he : l.ev = .enter k t') (hen : enterAct P F c l.act k t' = some c') :
+    passed t c' (tr ++ [l]) = passed t c tr + (if pendingB t (freshAct P F c k t') then 1 else 0) := by
+  have hA : acquirers (tr ++ [l]) = acquirers tr := by
+    rw [acquirers_append]; simp [acquirers, he]
+  have hP := cnt_enter (pendingB t) (fun _ _ => rfl) P F c c' tr l.act k t' hids hen
+  have hT := cnt_enter_old (isTask t) (fun _ _ => rfl) P F c c' l.act k t' (acquirers tr) hbound hen
+  unfold passed
+  rw [hA, actIds_snoc_enter tr l k t' he, hP, hT]
+  omega
+
 theorem callInv_reach (P : Program) (F : Flags) (t n : Nat) (tr : List Label) (c : Config)
     (h : replay P F (init n) tr = some c) : CallInv P F t c tr :=
   replay_inv_tr P F (CallInv P F t) (callInv_step P F t) n (callInv_init P F t n) tr c h
